@@ -1,9 +1,14 @@
-(* HookFrag.v — a decidable adequacy check for union hooks of the key-dispatch fragment, and its soundness:
-     hook_ok Sg ms h = true  ->  HookOK Sg py_str ms h
+(* HookFrag.v — a decidable adequacy check for union hooks, and its soundness:
+     hook_ok Sg NL GC GU ms h = true  ->  HookOK Sg py_str NL GC GU ms h
    (HookOK is what RoundTrip.parse_good demands of a registered union hook.)
-   The fragment: the hook's path may depend on the SHAPE of the value only (null / non-string primitive / string / array /
-   object with a given key set), decided by CIsNone/CIsPrim/CIsStr/CIsList on the value itself and by key presence tests
-   on objects; each member type of the union is checked against the leaf reached by the shapes of its valid values. *)
+   The fragment: the hook's path may depend only on the SHAPE of the value — null / non-string primitive / string /
+   array (with the shape of its first element) / object with, per key, the kind of the member and for strings possibly the
+   text.  [seval]/[sleaf] interpret the hook on a shape; [seval_sound] ties them to the concrete semantics; [sleaf_mono] says
+   the leaf computed for a less informative object shape is the leaf of every real shape refining it.  Each member type of the
+   union is checked against the leaf reached by the shapes of its valid values: class members by enumeration of the key sets
+   consistent with the class (representative shape from declared types and literal validators, [finfo], [kind_sound]),
+   array members through their first element, primitives / enums / Any by pass-through.  [compat]/[compat_sound]: an object
+   valid at class c is valid at the class c' the hook chooses.  NL is the explicit-null permission (see RoundTrip.pvalid). *)
 From LSP Require Import Base Sem SemThy Denote RoundTrip PtyEq.
 
 (* an array's shape records the shape of its FIRST element (None = empty): some hooks decide the element class of a homogeneous
